@@ -161,6 +161,7 @@ def check_case(case):
         v.inconclusive = f"oracle: {e}"
         return v
     t = tol(1e-6, Tc, max(rstar))
+    tp = tol(1e-6, Tc, 1)          # probabilities carry no reward-sized rounding slack
     # eligibility
     choice = {}
     allowed2 = {}
@@ -206,10 +207,10 @@ def check_case(case):
         x, y = a.prob_min_rew[s], a.rew_min_reach[s]
         if abs(x - a.prob[s]) > 1e-9 or abs(y - a.rew[s]) > 1e-9:
             disagree = True
-        if abs(x - float(pchain[s])) > t:
+        if abs(x - float(pchain[s])) > tp:
             v.fail("prob-min-rew-differs", f"{label}: state {s} reports probability-under-minimal-reward {x!r}, exact "
                                            f"reach probability under the reported final strategies "
-                                           f"{float(pchain[s])!r} ({pchain[s]}); final {a.final}, tol {t:.3g}",
+                                           f"{float(pchain[s])!r} ({pchain[s]}); final {a.final}, tol {tp:.3g}",
                    sig=game["players"][s])
             break
         if abs(y - float(rmin[s])) > t:
@@ -217,7 +218,7 @@ def check_case(case):
                                             f"{float(rmin[s])!r} ({rmin[s]}); final {a.final}, reach {a.reach_strat}, "
                                             f"tol {t:.3g}", sig=game["players"][s])
             break
-    if prune and abs(a.prob_min_rew[0] - 1) > t:
+    if prune and abs(a.prob_min_rew[0] - 1) > tp:
         v.fail("prob-min-rew-not-1-at-initial", f"{label}: reports {a.prob_min_rew[0]!r} at the initial state")
     if disagree:
         v.cls("objectives_disagree")
